@@ -114,24 +114,34 @@ func checkC19(c c19Case) string {
 			defer os.RemoveAll(dir)
 			restore := astisub.Now
 			astisub.Now = func() time.Time { return c19NowA }
-			for _, f := range writerFormats {
+			fl := c.Spec.build()
+			flBefore := canon(fl)
+			for _, ext := range []string{"srt", "vtt", "ssa", "ass", "ttml", "stl"} {
+				f := ext
+				if f == "ass" {
+					f = "ssa"
+				}
 				if bytes.HasPrefix(ref[f], []byte("ERR:")) {
 					continue
 				}
-				p := filepath.Join(dir, "out."+f)
+				p := filepath.Join(dir, "out."+ext)
 				stale := append(append([]byte(nil), ref[f]...), bytes.Repeat([]byte("stale tail of an older, longer file\n"), 40)...)
 				if os.WriteFile(p, stale, 0o644) != nil {
 					continue
 				}
 				for round := 0; round < 2; round++ {
-					if err := c.Spec.build().Write(p); err != nil {
+					if err := fl.Write(p); err != nil {
 						astisub.Now = restore
 						return fmt.Sprintf("Write(%s) failed although the %s writer accepts the list: %v", filepath.Base(p), f, err)
 					}
 					b, _ := os.ReadFile(p)
 					if !bytes.Equal(b, ref[f]) {
 						astisub.Now = restore
-						return fmt.Sprintf("the file written by Write(%s) over an older, longer file (round %d) holds %d bytes, the %s writer produces %d: the result depends on what the path held before", filepath.Base(p), round, len(b), f, len(ref[f]))
+						return fmt.Sprintf("the file written by Write(%s) over an older, longer file (round %d, after the other extensions) holds %d bytes, the %s writer produces %d for the list written alone", filepath.Base(p), round, len(b), f, len(ref[f]))
+					}
+					if after := canon(fl); after != flBefore {
+						astisub.Now = restore
+						return fmt.Sprintf("Write(%s) modified the cue list it was given\n--- before ---\n%s\n--- after ---\n%s", filepath.Base(p), clip(flBefore, 600), clip(after, 600))
 					}
 				}
 			}
